@@ -19,11 +19,20 @@ def interstitial_pool(ck, rng, n, random_frac=0.6, dims=(2, 3), names=None, forc
             for nm in fl[:max(3, n // 2)]:
                 crys, chem = gen.named(nm)
                 if crys.dim in dims: yield nm + "~perm", gen.shuffled(crys, rng), chem
-        yield from gen.pool(rng, 4 * n, random_frac=random_frac, dims=dims, names=names)
+            if 3 in dims:
+                # sites whose site symmetry is a single mirror, in Cartesian frames where the mirror normal is neither along
+                # an axis nor in a coordinate plane (vectlist / VectorBasis branches on the components of the normal)
+                crys, chem = gen.named("mono-m")
+                yield "mono-m~rot", gen.rotated(crys, gen.rotation([0, 1, 0], rng.choice([10, 25, 40]))), chem
+                yield "mono-m~rot", gen.rotated(crys, gen.random_rotation(rng, 3)), chem
+        for label, crys, chem in gen.pool(rng, 4 * n, random_frac=random_frac, dims=dims, names=names):
+            if rng.random() < 0.3:
+                crys = gen.rotated(crys, gen.random_rotation(rng, crys.dim)); label += "~rot"
+            yield label, crys, chem
     for label, crys, chem in source():
         if out >= n: break
         try:
-            net = gen.percolating_network(crys, chem, rng)
+            net = gen.percolating_network(crys, chem, rng, **(dict(maxshell=8, maxjumps=120) if label.startswith("mono-m") else {}))
         except Exception:
             net = None
         if net is None: continue
@@ -47,6 +56,18 @@ def sym_err(T):
 def inv_err(crys, T):
     """max over g of |g T g^T - T| for a rank-2 Cartesian tensor"""
     return max(np.abs(g.cartrot @ T @ g.cartrot.T - T).max() for g in crys.G)
+
+
+def axial_dim(crys):
+    """dimension of the space of antisymmetric rank-2 tensors invariant under the point group (0 for every group
+    that contains a mirror / two-fold axis not along a common axis: then invariant tensors are symmetric)"""
+    dim = crys.dim
+    imgs = []
+    for i in range(dim):
+        for j in range(i + 1, dim):
+            E = np.zeros((dim, dim)); E[i, j] = 1; E[j, i] = -1
+            imgs.append(sum(g.cartrot @ E @ g.cartrot.T for g in crys.G).ravel() / len(crys.G))
+    return int(np.linalg.matrix_rank(np.array(imgs), tol=1e-8)) if imgs else 0
 
 
 def inv_err4(crys, T):
